@@ -131,6 +131,12 @@ class Engine(EngineBase):
                     sf[name] = [f"SRC{i}:{name}", ts]
                     df[name] = [f"DST{i}:{name}" if size_same else f"DST{i}:{name}:longer", td]
             if i in src_idx:
+                tops = sorted(n for n in sf if "/" not in n)
+                if tops and rng.random() < 0.15:
+                    # a source file that is a symbolic link to another file of the job (links are followed)
+                    sf["lnk"] = ["@link:" + rng.choice(tops), T0 + 50_000]
+                    if rng.random() < 0.4:
+                        df["lnk"] = [f"DSTLNK{i}", T0 + 50_000 + rng.choice([-10_000, 0, 10_000])]
                 src_jobs[str(i)] = {"sp": universe[i], "doc": sdoc, "files": sf}
             if i in dst_idx:
                 dst_jobs[str(i)] = {"sp": universe[i], "doc": ddoc, "files": df}
@@ -154,7 +160,8 @@ class Engine(EngineBase):
             "deep": rng.random() < 0.35,
             "dry_run": rng.random() < (0.45 if P == "C15" else 0.1),
             "parallel": rng.choice([False, False, 2, True]) if P == "C15" else rng.choice([False, False, False, 2]),
-            "preserve": rng.random() < 0.2,
+            "preserve": rng.choice([False, False, False, False, True, "perms"]),
+            "collect_stats": rng.random() < 0.15,
         }
         if ds == "custom_raise":
             # what an arbitrary user function would do cannot be predicted by a dry run
@@ -281,6 +288,9 @@ def build_project(signac, path, spec):
         for rel, (content, mt) in sorted(j["files"].items()):
             full = os.path.join(job.path, rel)
             os.makedirs(os.path.dirname(full), exist_ok=True)
+            if content.startswith("@link:"):
+                O.symlink(content[6:], full)
+                continue
             with O.io_open(full, "wb") as f:
                 f.write(content.encode())
             O.utime(full, ns=(mt * 1_000_000, mt * 1_000_000))
@@ -305,6 +315,12 @@ def project_model(path):
             continue
         snap = snapshot(d, mtimes=True)
         files = {r: (e[1], e[2] // 1_000_000) for r, e in snap.items() if e[0] == "f" and r != SP_FILE}
+        for r, e in snap.items():
+            # a link to a file is what it points to (every comparison and copy of the sync follows links)
+            if e[0] == "l":
+                tgt = os.path.normpath(os.path.join(os.path.dirname(r), e[1]))
+                if tgt in snap and snap[tgt][0] == "f":
+                    files[r] = (snap[tgt][1], snap[tgt][2] // 1_000_000)
         st, sp = read_json(os.path.join(d, SP_FILE))
         st2, doc = read_json(os.path.join(d, DOC_FILE))
         out["jobs"][name] = {"sp": sp if st == "ok" else None, "doc": doc if st2 == "ok" else {},
@@ -380,7 +396,9 @@ class Run:
         src = signac.Project(src_path)
         dst = signac.Project(dst_path)
         kw = dict(recursive=o["recursive"], deep=o["deep"], dry_run=o["dry_run"])
-        if o["preserve"]:
+        if o["preserve"] == "perms":
+            kw.update(preserve_permissions=True)
+        elif o["preserve"]:
             kw.update(preserve_permissions=True, preserve_times=True)
         strategy = make_strategy(signac, o["strategy"])
         doc_sync = make_doc_sync(signac, o["doc_sync"])
@@ -392,6 +410,8 @@ class Run:
                     ids = [cid(sc["src"]["jobs"][k]["sp"]) for k in o["selection"]]
                     sel = ids if o["selection_kind"] == "id" else [src.open_job(id=i) for i in ids]
                 kw.update(check_schema=o["check_schema"], parallel=o["parallel"])
+                if o.get("collect_stats"):
+                    kw.update(collect_stats=True)
                 if entry == "Project.sync":
                     dst.sync(src, strategy=strategy, exclude=o["exclude"], doc_sync=doc_sync, selection=sel, **kw)
                 else:
